@@ -59,6 +59,21 @@ fn unsafe_gettid() -> u64 {
 }
 
 #[cfg(not(miri))]
+fn strip_generics(f: &str) -> String {
+    let mut out = String::new();
+    let mut depth = 0i32;
+    for c in f.chars() {
+        match c {
+            '<' => depth += 1,
+            '>' => depth -= 1,
+            c if depth == 0 => out.push(c),
+            _ => {}
+        }
+    }
+    out
+}
+
+#[cfg(not(miri))]
 fn gdb_stacks() -> Vec<String> {
     let pid = std::process::id();
     let out = std::process::Command::new("gdb")
@@ -75,17 +90,13 @@ fn gdb_stacks() -> Vec<String> {
                 }
                 cur = vec![line.split('(').next().unwrap_or(line).trim().to_string()];
             } else if line.starts_with('#') {
-                // keep frames of rs_store and the harness
-                if let Some(p) = line.find(" in ") {
-                    let f = line[p + 4..].split(" (").next().unwrap_or("").to_string();
-                    if f.contains("rs_store::") || f.contains("rsv::") {
-                        cur.push(f);
-                    }
-                } else {
-                    let f = line.splitn(2, "  ").nth(1).unwrap_or("").split(" (").next().unwrap_or("").to_string();
-                    if f.contains("rs_store::") || f.contains("rsv::") {
-                        cur.push(f);
-                    }
+                let f = match line.find(" in ") {
+                    Some(p) => line[p + 4..].to_string(),
+                    None => line.splitn(2, "  ").nth(1).unwrap_or("").to_string(),
+                };
+                let f = strip_generics(f.split(" (").next().unwrap_or(""));
+                if f.starts_with("rs_store::") || f.starts_with("rsv::") || std::env::var("RSV_FULL_STACKS").is_ok() {
+                    cur.push(f);
                 }
             }
         }
